@@ -1425,9 +1425,31 @@ class SpaceManager(SharedSpaceOperations):
 
         old_name = cells.name
 
+        # Find the sub cells to rename before any name changes:
+        # those whose nearest base cells is the renamed one
+        targets = []
         for space in self._get_subs(cells.parent, skip_self=False):
+            if old_name not in space.cells:
+                continue
+            c = space.cells[old_name]
+            if c is not cells:
+                bases = self.get_deriv_bases(c)
+                if not bases or bases[0] is not cells:
+                    continue    # Comes from another base space
+            targets.append((space, c))
+
+        for space, c in targets:
             space.clear_subs_rootitems()
-            space.cells[old_name].on_rename(name)
+            if c is not cells and name in space.cells:
+                # The sub space gets another cells of the new name
+                # from another base space
+                if c.is_derived():
+                    space.on_del_cells(old_name)
+                continue
+            c.on_rename(name)
+
+        # Derive the members that the renaming has uncovered or added
+        self.update_subs(cells.parent)
 
     def sort_cells(self, space):
         """Sort cells in a space
